@@ -56,7 +56,7 @@ def parse_model(rep, prog):
         return None
     st, _, rest = rep.partition(" ")
     out = {"status": st, "entries": [], "logs": []}
-    if st not in ("norm", "bare", "val"):
+    if st not in ("norm", "bare", "val") and not st.startswith("state"):
         return out
     xs = U.parse_sexps(rest)
     nh = len(G.HDRS)
@@ -75,6 +75,7 @@ def parse_model(rep, prog):
                 gr = s[4][1:]
                 for j in range(G.NGROUPS):
                     pool.append(gr[j] if j < len(gr) else NOTSET)
+                pool += list(s[6][1:])                      # sub-fields k1, k2 of the first two headers of each object
                 out["entries"].append({"depth": int(s[1]), "locals": locs, "pool": pool})
         elif x[0] == "logs":
             out["logs"] = [bytes.fromhex(q[1]) for q in x[1:]]
@@ -92,14 +93,20 @@ def impl_requests(progs, snapshot_logs=False):
 
 def compare(prog, it, mt):
     """first disagreement between the implementation trace and the model trace, or None"""
-    ok_i = it["status"] == "ok" or it["status"] == "state-"
+    def impl_outcome(st):
+        if st == "ok":
+            return "norm"
+        if st.startswith("state-"):
+            n = st[6:].lower()
+            return "state%d" % G.STATES.index(n) if n in G.STATES else "bare"
+        return st
     if mt["status"] in ("crash", "fuel"):
         return "model says %s, implementation %s" % (mt["status"], it["status"])
     if it["status"] == "err":
         return None if mt["status"] == "err" else "implementation raises (%s), model says %s" % (it["msg"], mt["status"])
     if mt["status"] == "err":
         return "model raises, implementation says %s" % it["status"]
-    if (it["status"] == "ok") != (mt["status"] == "norm"):
+    if impl_outcome(it["status"]) != mt["status"]:
         return "completion differs: implementation %s, model %s" % (it["status"], mt["status"])
     ie, me = it["entries"], mt["entries"]
     for k in range(min(len(ie), len(me))):
@@ -140,6 +147,9 @@ def stmt_exprs(s):
         return [s[1]]
     if k == "rawstmt":
         return [("raw", "", s[2])]
+    if k == "switch":
+        # the control expression, and a case written `case ~ "re"` is a match of this frame
+        return [s[1]] + [("match", False, ("lit", None, ""), t[1]) for t, _, _ in s[3] if t is not None and t[0] == "re"]
     return []
 
 
@@ -363,7 +373,7 @@ def run(ctx):
         if it is None or not it["entries"]:
             continue
         g0 = [U.show(v) for v in it["entries"][0]["pool"][:len(p.globals)]]
-        mreqs.append("run repaired 20000 " + p.sexp(g0))
+        mreqs.append("run repaired 20000 %d %s" % (len(p.objs), p.sexp(g0)))
         idx.append(k)
     mreps = V.run_batch([model], mreqs, hang_s=60, mem_kb=8_000_000)
     agree = 0
